@@ -159,7 +159,8 @@ Definition end_dropped (s : server) (id : N) : server :=
 
 (* ---------- C08 histories: the application keeps the resolver of every request it was shown
    until `Complete id` drops it ---------- *)
-Inductive gop := Arrive (id : N) | Shutdown (n : N) | Poll | Complete (id : N) | PeerGoaway (pid : N).
+Inductive gop := Arrive (id : N) | Shutdown (n : N) | Poll | Complete (id : N) | PeerGoaway (pid : N)
+| Serve (id : N).   (* the application resolves the request it holds: served; nothing changes for the connection *)
 
 Record gstate := { g_srv : server; g_live : list N }.   (* g_live: requests whose resolver is still held *)
 Definition gstate0 : gstate := {| g_srv := server0; g_live := [] |}.
@@ -195,6 +196,7 @@ Definition gstep (g : gstate) (o : gop) : list gev * gstate :=
                g_live := remove1 id (g_live g) |})
       else ([], g)
   | PeerGoaway pid => ([EPeerGoaway pid], {| g_srv := with_ctl s (s_ctl s ++ [pid]); g_live := g_live g |})
+  | Serve _ => ([], g)
   end.
 
 Fixpoint grun (g : gstate) (h : list gop) : list gev * gstate :=
